@@ -48,7 +48,8 @@ def step (j : Json) : R Json := do
     let poly ← fP2s j "poly"
     let pts ← fP2s j "pts"
     let d ← fBool j "default"
-    pure (obj [("r", ofBools (pts.map (fun q => pointInPolygon poly q d)))])
+    pure (obj [("r", ofBools (pts.map (fun q => pointInPolygon poly q d))),
+               ("proved", ofList (ofOpt Json.bool) (pts.map (fun q => pipProvedAnswer poly q)))])
   | "cell" =>
     let poly ← fP2s j "poly"
     let pts ← fP2s j "pts"
@@ -56,7 +57,7 @@ def step (j : Json) : R Json := do
   | "collinear" =>
     let pts ← fP3s j "pts"
     let tol ← fRat j "tol"
-    pure (obj [("r", Json.bool (pointsAreCollinear pts tol))])
+    pure (obj [("r", Json.bool (pointsAreCollinear pts tol)), ("proved", ofOpt Json.bool (collinearProvedAnswer pts tol))])
   | "planar" =>
     let pts ← fP3s j "pts"
     let tol ← fRat j "tol"
@@ -67,7 +68,11 @@ def step (j : Json) : R Json := do
       | _ => do pure (some (← toP3 (← jList jRat nj)))
     match pointsArePlanar pts normal tol ntol with
     | .error e => pure (errJson e)
-    | .ok b => pure (obj [("r", Json.bool b)])
+    | .ok b =>
+      let proved := match normal with
+        | some N => planarProvedAnswer N pts tol
+        | none => none
+      pure (obj [("r", Json.bool b), ("proved", ofOpt Json.bool proved)])
   | "half_space" =>
     let rows ← fNats j "rows"
     let n ← fRatss j "n"
